@@ -43,6 +43,14 @@ type kase struct {
 	shallow bool
 	input   string
 	class   string // generator class (histogram bucket)
+	fam     *famInfo // set for the deterministic sibling-then-nest family: what the text is
+}
+
+// famInfo is what the generator knows about a well-formed text of the sibling-then-nest family
+// (computed from the bytes by an independent bracket scanner, not by the parser or the model).
+type famInfo struct {
+	depth int // real nesting depth of lists
+	off65 int // offset a parser capped at secs2.MaxListDepth reports when depth 65 opens (-1: never)
 }
 
 type result struct {
@@ -51,6 +59,7 @@ type result struct {
 	ns     int64
 	same   bool
 	remeas int // how many times the child repeated an over-bound allocation measurement
+	depth  int // deepest list nesting among the returned items
 }
 
 type limits struct {
@@ -156,14 +165,15 @@ func runChunk(rest []kase, lim limits, tmp string) ([]result, bool, string, erro
 			case strings.HasPrefix(line, "B "):
 				begun, _ = strconv.Atoi(line[2:])
 			case strings.HasPrefix(line, "R "):
-				f := strings.SplitN(line, " ", 7)
-				if len(f) != 7 {
+				f := strings.SplitN(line, " ", 8)
+				if len(f) != 8 {
 					continue
 				}
 				a, _ := strconv.ParseUint(f[2], 10, 64)
 				ns, _ := strconv.ParseInt(f[3], 10, 64)
 				rm, _ := strconv.Atoi(f[5])
-				results = append(results, result{out: f[6], alloc: a, ns: ns, same: f[4] == "1", remeas: rm})
+				dp, _ := strconv.Atoi(f[6])
+				results = append(results, result{out: f[7], alloc: a, ns: ns, same: f[4] == "1", remeas: rm, depth: dp})
 			}
 		}
 		f.Close()
@@ -221,6 +231,8 @@ func allocBound(n int) uint64 {
 	u := uint64(n)
 	return 4096 + 256*u + u*u
 }
+
+const maxListDepth = 64 // secs2.MaxListDepth
 
 var digitRun = regexp.MustCompile(`[0-9]{1,19}`)
 
@@ -306,6 +318,21 @@ func checkOracle(c *vh.Ctx, k kase, r result) {
 	if r.ns > int64(10*time.Second) {
 		c.Fail("time: one call took more than 10 s", d)
 	}
+	// nesting: the parser must never hand out an item nested deeper than the binary decoder accepts
+	if r.depth > maxListDepth {
+		c.Fail(fmt.Sprintf("depth: accepted an item nested deeper than secs2.MaxListDepth = %d", maxListDepth), d+fmt.Sprintf(" returned-depth=%d", r.depth))
+	}
+	if k.fam != nil && k.entry != 'H' {
+		fd := fmt.Sprintf(" family: well-formed, real list depth %d, depth-65 offset %d, got=%s", k.fam.depth, k.fam.off65, firstWords(r.out, 5))
+		switch {
+		case k.fam.depth <= maxListDepth && f[0] != "OK":
+			c.Fail("depth: a well-formed text whose real list nesting is <= 64 was rejected", d+fd)
+		case k.fam.depth > maxListDepth && f[0] == "OK" && r.depth <= maxListDepth:
+			c.Fail("depth: a text nested deeper than 64 was accepted", d+fd)
+		case k.fam.depth > maxListDepth && f[0] == "ERR" && !(f[1] == "syntax" && f[2] == strconv.Itoa(k.fam.off65)):
+			c.Fail("depth: nesting beyond 64 not rejected with a ParseError at the offset where depth 65 opens", d+fd)
+		}
+	}
 	switch {
 	case f[0] == "ERR" && f[1] == "syntax":
 		off, _ := strconv.Atoi(f[2])
@@ -362,6 +389,15 @@ func emit(c *vh.Ctx, k kase, r result, lim limits) {
 	c.Count("class/" + k.class)
 	c.Count("outcome/" + kind + map[bool]string{false: "/nonstrict", true: "/strict"}[k.strict])
 	c.Count("entry/" + string(k.entry))
+	if !k.shallow && len(k.input) < 1<<16 {
+		sh := scanShape(k.input)
+		c.Count("shape/list-depth=" + bucket(sh.depth))
+		c.Count("shape/closed-sibling-lists=" + bucket(sh.closedBeforeNest))
+		c.Count("shape/empty-lists=" + bucket(sh.empty))
+	}
+	if k.fam != nil {
+		c.Count("family/real-depth=" + bucket(k.fam.depth))
+	}
 	if r.remeas > 0 {
 		c.Count("alloc/cases-remeasured")
 		c.Sum.Histogram["alloc/remeasure-calls"] += r.remeas
@@ -409,7 +445,7 @@ func main() {
 		}
 		c.Note("diff pass: every sml call ran in a child under ulimit -v 4 GiB (a fresh child per 4000 cases), 600 s wall clock per child; allocBound(len) = 4096 + 256*len + len^2 bytes")
 	case "hostile":
-		hs := hostileCases(c.Tier)
+		hs := append(hostileCases(c.Tier), familyHostile(c.Tier)...)
 		for _, h := range hs {
 			rs, err := runProtected([]kase{h.k}, h.lim, tmp)
 			if err != nil {
